@@ -929,9 +929,10 @@ class Curve(SplineGeometry):
 
     def reverse(self):
         """ Reverses the curve """
-        self._control_points = list(reversed(self._control_points))
         max_k = self.knotvector[-1]
         new_kv = [max_k - k for k in self.knotvector]
+        # Use set_ctrlpts() so that every control point dependent cache (e.g. NURBS ctrlpts/weights views) is reset
+        self.set_ctrlpts(list(reversed(self._control_points)))
         self._knot_vector[0] = list(reversed(new_kv))
         self.reset(evalpts=True)
 
